@@ -30,7 +30,7 @@ fn meta() -> Meta {
     Meta {
         id: "C12",
         level: "model_checking",
-        rule: "for every multiset of 2 (all) or 3 (selected) operations from {set_new_spec(A), parse_new_spec(B), push_temp_spec(C), push_temp_spec(C)+pop_temp_spec, set_new_spec(D)}, every interleaving of the threads' scheduling points (thread start, acquisition of the spec write lock, global max-level update, thread end) is executed under the controlled scheduler; states = choice points visited, transitions = scheduling decisions taken; a schedule is non-trivial when it contains at least one preemption; plus WatcherE (the specfile watcher's path through a guarded hook) as sixth operation and a Probe thread reading log::max_level() at any moment (the additional writer's max_log_level() is a scheduling point): the gate is never below that writer's ceiling; every pair also with the spec lock left un-modelled (real blocking on the RwLock, detected from the kernel thread state); a LogQ thread logs an error record for a module every specification switches off - it is never written; plus an auxiliary free-running pass (sampling): 60000 / 1.5 M rounds of two simultaneous set_new_spec calls, the state judged after every round; the final specification must be one that some interleaving of the operations' atomic steps produces (set/parse/watcher: install; push_temp_spec: save the active one, then install; pop_temp_spec: install what this handle saved)",
+        rule: "for every multiset of 2 (all) or 3 (selected) operations from {set_new_spec(A), parse_new_spec(B), push_temp_spec(C), push_temp_spec(C)+pop_temp_spec, set_new_spec(D)}, every interleaving of the threads' scheduling points (thread start, acquisition of the spec write lock, global max-level update, thread end) is executed under the controlled scheduler; states = choice points visited, transitions = scheduling decisions taken; a schedule is non-trivial when it contains at least one preemption; plus WatcherE (the specfile watcher's path through a guarded hook) as sixth operation and a Probe thread reading log::max_level() at any moment (the additional writer's max_log_level() is a scheduling point): the gate is never below that writer's ceiling; every pair also with the spec lock left un-modelled (real blocking on the RwLock, detected from the kernel thread state); a LogQ thread logs an error record for a module every specification switches off - it is never written; a LogP thread logs an error record for a module every specification admits - it is always written; plus an auxiliary free-running pass (sampling): 60000 / 1.5 M rounds of two simultaneous set_new_spec calls, the state judged after every round; the final specification must be one that some interleaving of the operations' atomic steps produces (set/parse/watcher: install; push_temp_spec: save the active one, then install; pop_temp_spec: install what this handle saved)",
         assumptions: vec![
             "sequentially consistent interleaving at hook granularity (spec RwLock section and log::set_max_level are the only shared accesses of these operations)".into(),
             "the specfile watcher calls the same WritersHandle::set_new_spec and is covered as another thread".into(),
@@ -39,10 +39,11 @@ fn meta() -> Meta {
 }
 
 fn spec(i: usize) -> RefSpec {
-    // every specification of the alphabet switches the module q off (see Op::LogQ)
+    // every specification of the alphabet switches the module q off (see Op::LogQ) and admits
+    // errors of the module p (see Op::LogP)
     let m = |d: Option<LevelFilter>, ms: &[(&str, LevelFilter)]| RefSpec {
         default: d,
-        modules: ms.iter().map(|(n, l)| ((*n).to_string(), *l)).chain([("q".to_string(), LevelFilter::Off)]).collect(),
+        modules: ms.iter().map(|(n, l)| ((*n).to_string(), *l)).chain([("q".to_string(), LevelFilter::Off), ("p".to_string(), LevelFilter::Error)]).collect(),
         regex: None,
     };
     match i {
@@ -71,6 +72,9 @@ enum Op {
     /// a thread that logs an error record for module q, which every specification of the
     /// alphabet switches off: whenever it comes, the record must not be written
     LogQ,
+    /// a thread that logs an error record for module p, which every specification of the
+    /// alphabet (and the initial one) admits: whenever it comes, the record must be written
+    LogP,
 }
 const OPS: [Op; 6] = [Op::SetA, Op::ParseB, Op::PushC, Op::PushPopC, Op::SetD, Op::WatcherE];
 
@@ -109,6 +113,7 @@ fn harnesses(tier: &str) -> Vec<Vec<Op>> {
     for a in 0..OPS.len() {
         v.push(vec![OPS[a], Op::Probe]);
         v.push(vec![OPS[a], Op::LogQ]);
+        v.push(vec![OPS[a], Op::LogP]);
     }
     for pair in [[Op::SetA, Op::WatcherE], [Op::WatcherE, Op::SetD], [Op::ParseB, Op::WatcherE], [Op::PushPopC, Op::WatcherE]] {
         v.push(vec![pair[0], pair[1], Op::Probe]);
@@ -200,6 +205,8 @@ struct Obs {
     probed: Option<LevelFilter>,
     /// records for module q that reached the default channel
     q_written: usize,
+    /// records for module p that reached the default channel
+    p_written: usize,
 }
 
 fn sched_cfg_for(unmodelled: bool) -> SchedCfg {
@@ -239,6 +246,7 @@ fn body(ops: Vec<Op>) -> Arc<dyn Fn(&Arc<Sched>) -> Obs + Send + Sync> {
             let lq = Arc::clone(&logger);
             hs.push(s.spawn(&format!("t{i}"), move || {
                 match op {
+                    Op::LogP => lq.log(&log::Record::builder().args(format_args!("from p")).level(log::Level::Error).target("p").module_path(Some("p")).build()),
                     Op::LogQ => lq.log(&log::Record::builder().args(format_args!("from q")).level(log::Level::Error).target("q").module_path(Some("q")).build()),
                     Op::WatcherE => h.verif_subscriber_set_new_spec(spec(5).build()).expect("subscriber"),
                     Op::Probe => *probed.lock().unwrap() = Some(log::max_level()),
@@ -268,8 +276,10 @@ fn body(ops: Vec<Op>) -> Arc<dyn Fn(&Arc<Sched>) -> Obs + Send + Sync> {
         std::mem::forget(handle);
         drop(logger);
         let probed = *probed.lock().unwrap();
-        let q_written = primary.take().iter().filter(|r| r.target == "q").count();
-        Obs { grid, gate, probed, q_written }
+        let recs = primary.take();
+        let q_written = recs.iter().filter(|r| r.target == "q").count();
+        let p_written = recs.iter().filter(|r| r.target == "p").count();
+        Obs { grid, gate, probed, q_written, p_written }
     })
 }
 
@@ -294,7 +304,7 @@ fn candidates(ops: &[Op]) -> Vec<usize> {
             Op::PushPopC => vec![Step::Save, Step::Set(2), Step::Restore],
             Op::SetD => vec![Step::Set(3)],
             Op::WatcherE => vec![Step::Set(5)],
-            Op::Probe | Op::LogQ => vec![],
+            Op::Probe | Op::LogQ | Op::LogP => vec![],
         })
         .collect();
     fn go(progs: &[Vec<Step>], pc: &mut Vec<usize>, saved: &mut Vec<usize>, cur: usize, out: &mut Vec<usize>) {
@@ -340,6 +350,12 @@ fn judge(ops: &[Op], o: &Obs) -> Result<usize, (String, String)> {
             ));
         }
     }
+    if ops.contains(&Op::LogP) && o.p_written != 1 {
+        return Err((
+            "dropped-though-enabled".into(),
+            format!("an error record for module p, which the initial specification and every submitted one admit, was written {} times", o.p_written),
+        ));
+    }
     if o.q_written > 0 {
         return Err((
             "written-though-disabled".into(),
@@ -347,7 +363,7 @@ fn judge(ops: &[Op], o: &Obs) -> Result<usize, (String, String)> {
         ));
     }
     let mut cands = candidates(ops);
-    if ops.iter().all(|o| matches!(o, Op::Probe | Op::LogQ)) || cands.is_empty() {
+    if ops.iter().all(|o| matches!(o, Op::Probe | Op::LogQ | Op::LogP)) || cands.is_empty() {
         cands.push(INITIAL);
     }
     let hit = cands.iter().copied().find(|c| spec(*c).grid(&TARGETS) == o.grid);
